@@ -36,7 +36,9 @@ TRUSTED_BASE = [
     "core._build_Q (the reduced QR enters as ONE contract, a Gram-Schmidt definition equal to NumPy's Q up to column signs; the library's own basis is "
     "PROVED to satisfy the basis contract of every detrending theorem), SpectrumAnalyzer.__init__ whole (defaults, validation, config table, shape "
     "dispatch, sanitising), SpectrumResult.__init__, the module-level wrappers lpsd / compute_spectrum / compute_single_bin, core._select_backend, "
-    "core._check_starts_bounds, dsp.df_timeshift and dsp.df_detrend whole (frame value model). A downstream property's check carries the equality "
+    "core._check_starts_bounds, dsp.df_timeshift and dsp.df_detrend whole (frame value model); two reasoning-only scans of the current source: "
+    "GlobalState (module- and class-level state and every decorator of every library file = the audited lists) and ResultPurity (buffer effects of "
+    "every SpectrumResult method: no in-place write on an object that may alias a cache entry). A downstream property's check carries the equality "
     "theorems of the properties it is downstream of (coverage.upstream). HAND-MODELLED and tied by correspondence only: copy / pickle object "
     "protocol, the file loaders, plotting, the CUDA launch machinery",
     "correspondence harness (vk/props/*.py) and Lean driver (lean/Driver.lean)",
